@@ -645,6 +645,7 @@ type numAPI[K any, W any] struct {
 	isEmpty, isFull                   func() bool
 	clear                             func()
 	setMax                            func(int)
+	setNull                           func(W) // SetNullValue (three types)
 	sort                              func(func(a, b K) bool)
 	keys, keyArray                    func() []K
 	values                            func() ([]W, string)
@@ -725,6 +726,11 @@ func (a *numAPI[K, W]) inst() *inst {
 			case "SM":
 				a.setMax(o.n)
 				return "u"
+			case "SN":
+				if a.setNull != nil {
+					a.setNull(w)
+					return strconv.Itoa(a.size())
+				}
 			case "SO":
 				if o.asc {
 					a.sort(a.less)
@@ -879,7 +885,7 @@ func newLongLongLinkedMap(c ctor) *inst {
 	} else {
 		m = hmap.NewLongLongLinkedMap(c.cap, c.lf)
 	}
-	a := &numAPI[int64, int64]{dm: dm, toString: m.ToString, size: m.Size, put: m.Put, putLast: m.PutLast, putFirst: m.PutFirst,
+	a := &numAPI[int64, int64]{dm: dm, setNull: func(v int64) { m.SetNullValue(v) }, toString: m.ToString, size: m.Size, put: m.Put, putLast: m.PutLast, putFirst: m.PutFirst,
 		add: m.Add, addLast: m.AddLast, addFirst: m.AddFirst, get: m.Get,
 		containsKey: m.ContainsKey, containsValue: m.ContainsValue, firstKey: m.GetFirstKey, lastKey: m.GetLastKey,
 		firstValue: m.GetFirstValue, lastValue: m.GetLastValue, remove: m.Remove, removeFirst: m.RemoveFirst, removeLast: m.RemoveLast,
@@ -970,7 +976,7 @@ func newStringIntLinkedMap(c ctor) *inst {
 	dm := new(int) // how the enumerators of this instance are driven (rotated by the dumps)
 	m := hmap.NewStringIntLinkedMap()
 	asV := func(x interface{}) int32 { return x.(int32) }
-	a := &numAPI[string, int32]{dm: dm, toString: m.ToString, size: m.Size, put: m.Put, putLast: m.PutLast, putFirst: m.PutFirst,
+	a := &numAPI[string, int32]{dm: dm, setNull: func(v int32) { m.SetNullValue(v) }, toString: m.ToString, size: m.Size, put: m.Put, putLast: m.PutLast, putFirst: m.PutFirst,
 		add: m.Add, addLast: m.AddLast, addFirst: m.AddFirst, get: m.Get,
 		containsKey: m.ContainsKey, containsValue: m.ContainsValue, firstKey: m.GetFirstKey, lastKey: m.GetLastKey,
 		firstValue: func() int32 { return asV(m.GetFirstValue()) }, lastValue: func() int32 { return asV(m.GetLastValue()) },
@@ -1007,7 +1013,7 @@ func newStringLongLinkedMap(c ctor) *inst {
 	dm := new(int) // how the enumerators of this instance are driven (rotated by the dumps)
 	m := hmap.NewStringLongLinkedMap()
 	asV := func(x interface{}) int64 { return x.(int64) }
-	a := &numAPI[string, int64]{dm: dm, toString: m.ToString, size: m.Size, put: m.Put, putLast: m.PutLast, putFirst: m.PutFirst,
+	a := &numAPI[string, int64]{dm: dm, setNull: func(v int64) { m.SetNullValue(v) }, toString: m.ToString, size: m.Size, put: m.Put, putLast: m.PutLast, putFirst: m.PutFirst,
 		add: m.Add, addLast: m.AddLast, addFirst: m.AddFirst, get: m.Get,
 		containsKey: m.ContainsKey, containsValue: m.ContainsValue, firstKey: m.GetFirstKey, lastKey: m.GetLastKey,
 		firstValue: func() int64 { return asV(m.GetFirstValue()) }, lastValue: func() int64 { return asV(m.GetLastValue()) },
